@@ -19,6 +19,8 @@ class Ob:
 def _worker(conn, modname, fname, kwargs):
     try:
         sys.setrecursionlimit(20000)
+        from pyvc import symex as _sx
+        _sx._FRESH.reset()          # no term of the parent is reused by an obligation (kwargs are plain data), so names may restart
         mod = importlib.import_module(modname)
         r = getattr(mod, fname)(**kwargs)
         r.pop('z3model', None)
